@@ -107,10 +107,11 @@ static size_t nmvalue(int c, size_t sz, unsigned salt)
 
 /* slice bound classes, relative to the source view (off, len, rem = nm - off) */
 enum { S_0, S_1, S_2, S_IN, S_LENM1, S_LEN, S_LEN1, S_REMM1, S_REM, S_REM1, S_MAX, S_MAXM1,
-       S_MAXOFF, S_MAXOFF1, S_MAXOFF2, S_MAXOFFM1, S_WRAPREM, S_HALF, S_NCLS };
+       S_MAXOFF, S_MAXOFF1, S_MAXOFF2, S_MAXOFFM1, S_WRAPREM, S_MULWRAP1, S_MULWRAPREM, S_HALF, S_NCLS };
 static const char *const sname[S_NCLS] = {
     "0", "1", "2", "in-range", "size-1", "size", "size+1", "bufend-1", "bufend", "bufend+1", "size_max", "size_max-1",
-    "size_max-off", "size_max-off+1", "size_max-off+2", "size_max-off-1", "size_max-off+1+bufend", "half-size"
+    "size_max-off", "size_max-off+1", "size_max-off+2", "size_max-off-1", "size_max-off+1+bufend",
+    "mulwrap+1", "mulwrap+bufend", "half-size"
 };
 static int boundvalue(int c, const struct view *v, unsigned salt, size_t *out)
 {
@@ -134,6 +135,9 @@ static int boundvalue(int c, const struct view *v, unsigned salt, size_t *out)
     case S_MAXOFF2: *out = SIZE_MAX - off + 2; break;
     case S_MAXOFFM1: *out = SIZE_MAX - off - 1; break;
     case S_WRAPREM: *out = SIZE_MAX - off + 1 + rem; break;
+    /* counts whose product with the element size wraps to a few bytes (a bound check done in bytes would accept them) */
+    case S_MULWRAP1: if (v->b < 0 || B[v->b].sz < 2) return 0; *out = SIZE_MAX / B[v->b].sz + 2; break;
+    case S_MULWRAPREM: if (v->b < 0 || B[v->b].sz < 2 || rem > SIZE_MAX / 2) return 0; *out = SIZE_MAX / B[v->b].sz + 1 + rem; break;
     case S_HALF: *out = len / 2; break;          /* reshape cases only (not part of ALL_BOUNDS / pick_bound) */
     default: return 0;
     }
@@ -1096,7 +1100,7 @@ static void run_closure(int ci)
 static int pick_bound(vrt_rng *g)
 {
     /* boundary heavy */
-    static const unsigned char w[S_NCLS] = { 6, 5, 3, 14, 4, 8, 4, 4, 8, 6, 3, 3, 3, 5, 3, 2, 4 };
+    static const unsigned char w[S_NCLS] = { 6, 5, 3, 14, 4, 8, 4, 4, 8, 6, 3, 3, 3, 5, 3, 2, 4, 4, 3 };
     unsigned tot = 0, r;
     int i;
     for (i = 0; i < S_NCLS; i++) tot += w[i];
